@@ -1,5 +1,9 @@
 /* harness-form contracts for the Part 21 number readers/writer (C05, C09) */
+#ifdef VERIF_TIER_THOROUGH
+#define RN 11
+#else
 #define RN 9   /* script length bound */
+#endif
 
 static int is_ws(int c) { return c == ' ' || c == '\t' || c == '\n' || c == '\r' || c == '\f' || c == '\v'; }
 static int is_dg(int c) { return c >= '0' && c <= '9'; }
